@@ -5,6 +5,7 @@ import (
 	"fmt"
 	"sort"
 	"strings"
+	"time"
 
 	"github.com/mit-pdos/go-journal/vrt"
 	"verif/fsx"
@@ -281,10 +282,14 @@ func C06(r *report.Report, tier string) {
 		}
 	}
 	// (c) the concurrent harnesses on trees with inverted inode numbers and with background frees: deadlock and horizon verdicts
+	var chs []concArg
 	for _, h := range concHarnesses() {
-		if !strings.Contains(h.Name, "inverted") && !strings.Contains(h.Name, "big") && !strings.Contains(h.Name, "rename") {
-			continue
+		if strings.Contains(h.Name, "inverted") || strings.Contains(h.Name, "big") || strings.Contains(h.Name, "rename") {
+			chs = append(chs, h)
 		}
+	}
+	for hi, h := range chs {
+		fairShare(hi, len(chs))
 		if timeUp() {
 			r.Exhaustive = false
 			break
@@ -293,6 +298,7 @@ func C06(r *report.Report, tier string) {
 		r.Distinct("harness|" + h.Name)
 		r.Sample(map[string]interface{}{"harness": h.Name, "executions": s.Execs})
 	}
+	HarnessDeadline = time.Time{}
 	r.Add("predictions_confirmed", int64(confirmed))
 	r.Add("predictions_refuted", int64(refuted))
 	r.Extra["bounds"] = map[string]int{"depth": depth, "deviations": bound}
